@@ -1022,6 +1022,11 @@ class Engine:
                 r = self.drop_value(st, f, depth + 1)
                 if r is not None:
                     raise EngineAbort("nested forking drop")
+        if isinstance(v, OpaqueV) and isinstance(v.attrs.get("items"), list) and v.ty in ("Vec", "ListIter"):
+            for f in v.attrs["items"]:
+                r = self.drop_value(st, f, depth + 1)
+                if r is not None:
+                    raise EngineAbort("nested forking drop")
         return None
 
     # ---- calls
